@@ -41,7 +41,7 @@ fn go15(op: &str, args: &[Arg]) -> Option<String> {
                 Arg::Z(1) => rf(&a.norm(Some(NormOrd::Int(1)), None, None)),
                 Arg::Z(2) => rf(&a.norm(Some(NormOrd::Int(2)), None, None)),
                 Arg::Z(99) => rf(&a.norm(Some(NormOrd::Inf), None, None)),
-                Arg::S(s) => rf(&a.norm(Some(std::str::from_utf8(s).ok()?), None, None)),
+                Arg::S(s) => w2(rf(&a.norm(Some(std::str::from_utf8(s).ok()?), None, None)), rf(&a.norm(Some(String::from_utf8(s.clone()).ok()?), None, None))),
                 _ => return None }
         }
         _ => return None,
